@@ -747,6 +747,8 @@ struct E2eCfg {
     xa: Option<Ipv6Address>,
     xb: Option<Ipv6Address>,
     dst_x: bool,
+    /// multicast destination (no neighbor discovery; the only way a short link-layer address can be used)
+    dst_m: Option<Ipv6Address>,
     ident: u16,
     mtu: usize,
 }
@@ -762,6 +764,10 @@ fn e2e_cfg(c: &Case) -> E2eCfg {
         xa: x("xa"),
         xb: x("xb"),
         dst_x: c.get("dst") == Some("x"),
+        dst_m: match c.get("dst") {
+            Some(d) if d.starts_with("m:") => Some(addr16(&d[2..])),
+            _ => None,
+        },
         ident: c.get_i("ident", 0x1234) as u16,
         mtu: c.get_i("mtu", 127) as usize,
     }
@@ -797,7 +803,13 @@ fn mk_pair(medium: Medium, cfg: &E2eCfg) -> Pair {
     let mut b = mk_node(medium, Some(cfg.llb), &ib, if need_gw { Some(la) } else { None }, mtu, 0x2222);
     a.sockets.get_mut::<icmp::Socket>(a.h_icmp).bind(icmp::Endpoint::Ident(cfg.ident)).unwrap();
     b.sockets.get_mut::<icmp::Socket>(b.h_icmp).bind(icmp::Endpoint::Ident(cfg.ident ^ 0xffff)).unwrap();
-    let dst_b = if cfg.dst_x { cfg.xb.unwrap_or(lb) } else { lb };
+    let dst_b = if let Some(m) = cfg.dst_m {
+        m
+    } else if cfg.dst_x {
+        cfg.xb.unwrap_or(lb)
+    } else {
+        lb
+    };
     Pair { a, b, dst_b, tag0: [None, None] }
 }
 
@@ -846,12 +858,18 @@ fn pattern(pat: u8, len: usize) -> Vec<u8> {
 }
 
 fn warmup(p: &mut Pair) -> std::result::Result<(), ()> {
+    if p.dst_b.is_multicast() {
+        return Ok(());
+    }
     // A -> B small datagram: A solicits B (B learns A from the source link-layer address option)
     let dst = p.dst_b;
     {
         let s = p.b.sockets.get_mut::<udp::Socket>(p.b.h_udp);
+        s.close();
         s.bind(9).unwrap();
         let s = p.a.sockets.get_mut::<udp::Socket>(p.a.h_udp);
+        s.close();
+        s.set_hop_limit(None);
         s.bind(9).unwrap();
         s.send_slice(b"w", (IpAddress::Ipv6(dst), 9)).unwrap();
     }
@@ -882,7 +900,9 @@ fn schedule(spec: &str, n: usize) -> Vec<usize> {
     let mut v: Vec<usize> = (0..n).collect();
     let t: Vec<&str> = spec.split(':').collect();
     let k = |i: usize| t.get(i).and_then(|x| x.parse::<usize>().ok()).unwrap_or(0);
-    if n == 0 {
+    // a datagram that travels in a single frame is never duplicated or dropped: the schedule is about
+    // the fragments of one datagram (and the reference run on Medium::Ip must see each datagram once)
+    if n <= 1 {
         return v;
     }
     match t[0] {
@@ -1013,6 +1033,12 @@ fn run_op(p: &mut Pair, cfg: &E2eCfg, op: &str, out: Option<&mut dyn Write>) -> 
         p.b.now += kvi(&t, "ms");
         let _ = p.a.poll();
         let _ = p.b.poll();
+        // neighbor cache entries may have expired: refresh them outside the observed traffic
+        if p.a.dev.medium == Medium::Ieee802154 {
+            let _ = warmup(p);
+            p.a.now -= 10;
+            p.b.now -= 10;
+        }
         return r;
     }
     if !queue_op(p, cfg, &t) {
@@ -1139,8 +1165,11 @@ fn gen_len(rng: &mut Rng, tier: &str) -> usize {
 }
 
 fn gen_e2e_case(rng: &mut Rng, id: String, tier: &str) -> Case {
-    let ext = |rng: &mut Rng| rng.chance(1, 2);
-    let (ea, eb) = (ext(rng), ext(rng));
+    // neighbor discovery on 802.15.4 only accepts 8-octet link-layer address options, so two
+    // interfaces can exchange unicast traffic only with extended addresses; a short address is
+    // exercised with a multicast destination (sent to the broadcast link-layer address)
+    let mcast = rng.chance(1, 5);
+    let (ea, eb) = if mcast { (rng.chance(1, 3), rng.chance(1, 2)) } else { (true, true) };
     let mk_ll = |rng: &mut Rng, e: bool, w: u8| {
         if e {
             let mut b = rng.bytes(8);
@@ -1181,13 +1210,14 @@ fn gen_e2e_case(rng: &mut Rng, id: String, tier: &str) -> Case {
     let (xa, xb) = (mk_x(rng, class, 1), mk_x(rng, class, 2));
     let dst_x = class != 0 && rng.chance(2, 3);
     let ident = rng.next() as u16;
+    let dst_s = if mcast { "m:ff020000000000000000000000000001".to_string() } else if dst_x { "x".into() } else { "ll".into() };
     let cfg = vec![
         ("s".to_string(), "e2e".to_string()),
         ("lla".into(), ll_show(&Some(lla))),
         ("llb".into(), ll_show(&Some(llb))),
         ("xa".into(), xa.map(|x| hex(&x.octets())).unwrap_or("-".into())),
         ("xb".into(), xb.map(|x| hex(&x.octets())).unwrap_or("-".into())),
-        ("dst".into(), if dst_x { "x".into() } else { "ll".into() }),
+        ("dst".into(), dst_s),
         ("ident".into(), ident.to_string()),
         ("mtu".into(), if rng.chance(1, 2) { "127".into() } else { "125".into() }),
     ];
@@ -1202,7 +1232,7 @@ fn gen_e2e_case(rng: &mut Rng, id: String, tier: &str) -> Case {
             2 => 255,
             _ => rng.range(2, 254) as u8,
         };
-        let mut op = match rng.below(10) {
+        let mut op = match if mcast { rng.below(6) } else { rng.below(10) } {
             0..=4 => format!("udp sp={} dp={} hl={} len={} pat={} sched={}", gen_port(rng).max(1), gen_port(rng).max(1), hl, gen_len(rng, tier), rng.next() as u8, gen_sched(rng)),
             5 => format!("burst k={} sp={} dp={} hl={} len={} pat={}", rng.range(2, 3), gen_port(rng).max(1), gen_port(rng).max(1), hl, gen_len(rng, tier), rng.next() as u8),
             _ => format!("echo seq={} hl={} len={} pat={} sched={}", rng.next() as u16, hl, gen_len(rng, tier).min(1400), rng.next() as u8, gen_sched(rng)),
@@ -1216,6 +1246,263 @@ fn gen_e2e_case(rng: &mut Rng, id: String, tier: &str) -> Case {
             let w = c.ops.last().unwrap().clone();
             let _ = run_op(&mut pip, &ecfg, &w, None);
         }
+    }
+    c
+}
+
+
+// ------------------------------------------------------------------------------------------
+// oracles on the implementation (no model involved)
+// ------------------------------------------------------------------------------------------
+
+/// insert a wait after every op that leaves an incomplete reassembly behind (dropped or duplicated
+/// fragment), so that the expectation of the following ops does not depend on the receiver's slot
+fn oracle_case_from(mut c: Case) -> Case {
+    let mut ops = vec![];
+    for op in c.ops.drain(..) {
+        let stale = op.contains("sched=drop") || op.contains("sched=dup");
+        ops.push(op);
+        if stale {
+            ops.push("wait ms=61000".to_string());
+        }
+    }
+    c.ops = ops;
+    c
+}
+
+fn refs_of(t: &[&str], k: &str) -> Vec<Vec<u8>> {
+    match kv(t, k) {
+        "-" => vec![],
+        s => s.split(',').map(unhex).collect(),
+    }
+}
+
+fn oracle_e2e_case(c: &Case, fails: &mut Vec<String>, stats: &mut BTreeMap<String, u64>) {
+    let cfg = e2e_cfg(c);
+    let mut p = mk_pair(Medium::Ieee802154, &cfg);
+    let mut fail = |class: &str, why: String| fails.push(format!("{} :: case {}: {}", class, c.id, why));
+    if warmup(&mut p).is_err() {
+        fail("poll-panics", "during neighbor discovery".into());
+        return;
+    }
+    for (k, op) in c.ops.iter().enumerate() {
+        let t: Vec<&str> = op.split_whitespace().collect();
+        let r = run_op(&mut p, &cfg, op, None);
+        if r.panicked {
+            fail("poll-panics", format!("op#{} `{}`", k, &op[..op.len().min(80)]));
+            return;
+        }
+        if t[0] == "wait" {
+            continue;
+        }
+        *stats.entry(format!("op_{}", t[0])).or_default() += 1;
+        // every frame fits an 802.15.4 frame (127 octets including the 2-octet FCS)
+        for (dir, f) in &r.frames {
+            *stats.entry("frames".into()).or_default() += 1;
+            if f.len() > 125 {
+                fail("frame-exceeds-802154-budget", format!("op#{} dir {} frame of {} octets", k, dir, f.len()));
+            }
+            if let Some((_, Fk::First(..), _)) | Some((_, Fk::Next(..), _)) = reduce(f) {
+                *stats.entry("frag_frames".into()).or_default() += 1;
+            }
+        }
+        let nfrag_ab = r.frames.iter().filter(|(d, _)| d == "ab").count();
+        let refs = refs_of(&t, "ref");
+        let rrefs = refs_of(&t, "rref");
+        // which request datagrams must arrive: all, unless a fragment was withheld or the datagram
+        // did not fit the fragmentation buffer (then it is not sent at all)
+        let sched = if t[0] == "burst" { "io" } else { kv(&t, "sched") };
+        let dropped = sched.starts_with("drop") && nfrag_ab > 1;
+        let got_ab: Vec<&Vec<u8>> = r.delivered.iter().filter(|(d, _)| d == "ab").map(|(_, x)| x).collect();
+        let got_ba: Vec<&Vec<u8>> = r.delivered.iter().filter(|(d, _)| d == "ba").map(|(_, x)| x).collect();
+        // a datagram whose compressed form exceeds the fragmentation buffer is dropped by the sender:
+        // compressed size >= datagram - 48 + 3, so anything up to 1500 + 3 octets must have been sent
+        let sendable: Vec<&Vec<u8>> = refs.iter().filter(|d| d.len() <= 1503).collect();
+        let maybe: usize = refs.len() - sendable.len();
+        if dropped {
+            *stats.entry("withheld".into()).or_default() += 1;
+            if !got_ab.is_empty() {
+                fail("delivered-though-fragment-missing", format!("op#{} `{}`", k, &op[..op.len().min(60)]));
+            }
+            continue;
+        }
+        // everything delivered is a reference datagram, in order; every surely-sendable one is delivered
+        let mut it = refs.iter();
+        for g in &got_ab {
+            *stats.entry("delivered".into()).or_default() += 1;
+            if !it.any(|d| &d == g) {
+                fail(
+                    "datagram-differs-from-reference",
+                    format!("op#{} `{}`: got {} want one of {:?}", k, &op[..op.len().min(60)], hex(g), refs.iter().map(|d| hex(d)).collect::<Vec<_>>()),
+                );
+                break;
+            }
+        }
+        if got_ab.len() + maybe < refs.len() {
+            fail(
+                "not-delivered-though-all-fragments-arrived",
+                format!("op#{} `{}`: {} of {} datagrams delivered ({} frames)", k, &op[..op.len().min(60)], got_ab.len(), refs.len(), nfrag_ab),
+            );
+        }
+        // the reply (echo) likewise
+        if got_ab.len() == refs.len() {
+            let mut it = rrefs.iter();
+            for g in &got_ba {
+                if !it.any(|d| &d == g) {
+                    fail("datagram-differs-from-reference", format!("op#{} reply: got {}", k, hex(g)));
+                    break;
+                }
+            }
+            if got_ba.len() < rrefs.iter().filter(|d| d.len() <= 1503).count() {
+                fail("not-delivered-though-all-fragments-arrived", format!("op#{} reply missing", k));
+            }
+        }
+    }
+    if !p.a.dev.oversize.is_empty() || !p.b.dev.oversize.is_empty() {
+        // device MTU 125/127: nothing the stack offers may exceed it
+        fail("frame-exceeds-device-mtu", format!("{:?} {:?}", p.a.dev.oversize, p.b.dev.oversize));
+    }
+}
+
+/// valid compressed frames A -> B of a generated scenario (for the mutational injection oracle)
+fn harvest_frames(c: &Case) -> (E2eCfg, Vec<Vec<u8>>) {
+    let cfg = e2e_cfg(c);
+    let mut p = mk_pair(Medium::Ieee802154, &cfg);
+    let mut all = vec![];
+    if warmup(&mut p).is_err() {
+        return (cfg, all);
+    }
+    for op in &c.ops {
+        let r = run_op(&mut p, &cfg, op, None);
+        all.extend(r.frames.into_iter().filter(|(d, _)| d == "ab").map(|(_, f)| f));
+        if r.panicked {
+            break;
+        }
+    }
+    (cfg, all)
+}
+
+fn mutate_frame(rng: &mut Rng, f: &mut Vec<u8>) {
+    let maclen = split_frame(f).map(|x| x.0).unwrap_or(0).min(f.len());
+    match rng.below(9) {
+        0 => {
+            let n = rng.below(f.len() as u64 + 1) as usize;
+            f.truncate(n);
+        }
+        1 | 2 if f.len() > maclen => {
+            // a 6LoWPAN header octet (dispatch, sizes, IPHC mode bits, NHC byte ...)
+            let i = maclen + rng.below(((f.len() - maclen).min(12)) as u64) as usize;
+            f[i] = rng.next() as u8;
+        }
+        3 if f.len() > maclen => {
+            let i = maclen + rng.below((f.len() - maclen) as u64) as usize;
+            f[i] ^= 1 << rng.below(8);
+        }
+        4 if f.len() > maclen + 2 => {
+            // datagram_size / offset of a fragment header
+            let v = *rng.pick(&[0u8, 1, 39, 40, 47, 0xff, 7, 8]);
+            f[maclen + 1] = v;
+            if rng.chance(1, 2) {
+                f[maclen] &= 0xf8;
+            }
+        }
+        5 => {
+            let extra = rb(rng, 0, 8);
+            f.extend(extra);
+        }
+        6 if !f.is_empty() => {
+            let i = rng.below(f.len() as u64) as usize;
+            f[i] = rng.next() as u8;
+        }
+        7 if f.len() > maclen + 1 => {
+            // cut right behind some header octet
+            let n = maclen + rng.below(((f.len() - maclen).min(48)) as u64) as usize;
+            f.truncate(n);
+        }
+        _ => {}
+    }
+}
+
+/// hand-made frames around the decompressor's length arithmetic
+fn seed_frames(rng: &mut Rng) -> Vec<u8> {
+    let mac = unhex("41cc01efbe020000000000000201000000000000");
+    let mut f = mac.clone();
+    // force both link-layer addresses to the fixed receiver / sender of inject_case
+    f[12..20].copy_from_slice(&[0x01, 0, 0, 0, 0, 0, 0, 0x02]);
+    let body: Vec<u8> = match rng.below(6) {
+        0 => {
+            // FRAG1 + IPHC(nh compressed) + NHC-UDP, datagram_size around the header sizes
+            let size = *rng.pick(&[40u16, 41, 47, 48, 49, 55, 56, 100]);
+            let mut b = vec![0xc0 | (size >> 8) as u8, size as u8, 0, rng.next() as u8, 0x7e, 0x33];
+            b.push(0xf0 | (rng.next() as u8 & 7));
+            b.extend(rb(rng, 0, 12));
+            b
+        }
+        1 => {
+            // IPHC + NHC extension header(s) with arbitrary length octets
+            let mut b = vec![0x7e, 0x33];
+            for _ in 0..rng.range(1, 3) {
+                let nh_inline = rng.chance(1, 2);
+                b.push(0xe0 | ((rng.next() as u8 & 7) << 1) | (!nh_inline) as u8);
+                if nh_inline {
+                    b.push(*rng.pick(&[58u8, 17, 6, 0, 43, 60, 200]));
+                }
+                b.push(*rng.pick(&[0u8, 1, 6, 8, 14, 0x20, 0xff]));
+                b.extend(rb(rng, 0, 10));
+            }
+            if rng.chance(1, 2) {
+                b.push(0xf0 | (rng.next() as u8 & 7));
+                b.extend(rb(rng, 0, 8));
+            }
+            b
+        }
+        2 => {
+            // FRAGN with offsets beyond the datagram
+            let size = *rng.pick(&[40u16, 100, 1280, 2047]);
+            let mut b = vec![0xe0 | (size >> 8) as u8, size as u8, 0, 7, *rng.pick(&[0u8, 1, 5, 160, 255])];
+            b.extend(rb(rng, 0, 90));
+            b
+        }
+        3 => {
+            // random IPHC mode word with contexts
+            let w = 0x6000 | (rng.next() as u16 & 0x1fff);
+            let mut b = vec![(w >> 8) as u8, w as u8];
+            b.extend(rb(rng, 0, 45));
+            b
+        }
+        4 => {
+            // FRAG1 carrying a random IPHC mode word
+            let size = *rng.pick(&[40u16, 48, 60, 200, 1500]);
+            let w = 0x6000 | (rng.next() as u16 & 0x1fff);
+            let mut b = vec![0xc0 | (size >> 8) as u8, size as u8, 1, rng.next() as u8, (w >> 8) as u8, w as u8];
+            b.extend(rb(rng, 0, 60));
+            b
+        }
+        _ => rb(rng, 0, 40),
+    };
+    f.extend(body);
+    f
+}
+
+fn gen_inject_case(rng: &mut Rng, id: String, tier: &str) -> Case {
+    // the receiver of inject_case is fixed (e:0200000000000002); harvested frames are re-addressed to it
+    let mut c = Case { id, cfg: vec![("s".into(), "inject".into()), ("ll".into(), "e:0200000000000002".into())], ops: vec![] };
+    let src = gen_e2e_case(rng, "h".into(), tier);
+    let (_, frames) = harvest_frames(&src);
+    let n = rng.range(4, 24);
+    for _ in 0..n {
+        let mut f = if !frames.is_empty() && rng.chance(2, 3) { rng.pick(&frames).clone() } else { seed_frames(rng) };
+        // re-address harvested frames (extended/extended layout only) to the fixed receiver
+        if f.len() > 21 && f[0] == 0x41 && f[1] == 0xcc {
+            f[5..13].copy_from_slice(&[0x02, 0, 0, 0, 0, 0, 0, 0x02]);
+        }
+        if rng.chance(3, 4) {
+            mutate_frame(rng, &mut f);
+        }
+        if rng.chance(1, 6) {
+            mutate_frame(rng, &mut f);
+        }
+        c.ops.push(format!("f {} {}", *rng.pick(&[0i64, 0, 1, 10, 1000, 61000]), hex(&f)));
     }
     c
 }
@@ -1234,11 +1521,21 @@ fn main() {
                 gen_wire_case(&mut rng, format!("w{}-{}", seed, i)).write(&mut out);
             }
         }
-        "run-wire" => {
+        // `run` and `run-wire` are the same: a case says which stream it belongs to (`s=`), so that
+        // corpus files of either stream can be replayed under both
+        "run-wire" | "run" => {
             for c in stdin_cases() {
-                writeln!(out, "case {}", c.id).unwrap();
-                for op in &c.ops {
-                    writeln!(out, "{}", wire_op(op)).unwrap();
+                match c.get("s") {
+                    Some("e2e") => e2e_run_case(&c, &mut out),
+                    Some("inject") => {
+                        inject_case(&c, &mut out);
+                    }
+                    _ => {
+                        writeln!(out, "case {}", c.id).unwrap();
+                        for op in &c.ops {
+                            writeln!(out, "{}", wire_op(op)).unwrap();
+                        }
+                    }
                 }
             }
         }
@@ -1246,11 +1543,6 @@ fn main() {
             let mut rng = Rng::new(seed ^ 0xe2e);
             for i in 0..n {
                 gen_e2e_case(&mut rng, format!("e{}-{}", seed, i), &_tier).write(&mut out);
-            }
-        }
-        "run" => {
-            for c in stdin_cases() {
-                e2e_run_case(&c, &mut out);
             }
         }
         "mld-probe" => {
@@ -1264,9 +1556,61 @@ fn main() {
                 Err(()) => writeln!(out, "PANIC in poll after join_multicast_group").unwrap(),
             }
         }
+        "oracle" | "oracle-replay" => {
+            let mut fails = vec![];
+            let mut stats = BTreeMap::new();
+            let cases: Vec<Case> = if sub == "oracle" {
+                let mut rng = Rng::new(seed ^ 0x0e2e);
+                (0..n).map(|i| oracle_case_from(gen_e2e_case(&mut rng, format!("o{}-{}", seed, i), &_tier))).collect()
+            } else {
+                stdin_cases().into_iter().filter(|c| c.get("s") == Some("e2e")).collect()
+            };
+            for c in &cases {
+                let before = fails.len();
+                oracle_e2e_case(c, &mut fails, &mut stats);
+                if fails.len() > before && sub == "oracle" {
+                    writeln!(out, "FAILCASE").unwrap();
+                    c.write(&mut out);
+                }
+                if fails.len() > 20 {
+                    break;
+                }
+            }
+            for f in &fails {
+                writeln!(out, "FAIL {}", f).unwrap();
+            }
+            let st: Vec<String> = stats.iter().map(|(k, v)| format!("{}:{}", jstr(k), v)).collect();
+            writeln!(out, "STATS {{\"cases\":{}{}{}}}", cases.len(), if st.is_empty() { "" } else { "," }, st.join(",")).unwrap();
+        }
+        "oracle-inject" => {
+            let mut rng = Rng::new(seed ^ 0x1213);
+            let mut nframes = 0u64;
+            let mut fails = vec![];
+            let mut sink = std::io::sink();
+            for i in 0..n {
+                let c = gen_inject_case(&mut rng, format!("i{}-{}", seed, i), &_tier);
+                nframes += c.ops.len() as u64;
+                let f = inject_case(&c, &mut sink);
+                if !f.is_empty() {
+                    writeln!(out, "FAILCASE").unwrap();
+                    c.write(&mut out);
+                    fails.extend(f);
+                }
+                if fails.len() > 10 {
+                    break;
+                }
+            }
+            for f in &fails {
+                writeln!(out, "FAIL {}", f).unwrap();
+            }
+            writeln!(out, "STATS {{\"cases\":{},\"frames_injected\":{}}}", n, nframes).unwrap();
+        }
         "inject-replay" => {
             let mut fails = vec![];
             for c in stdin_cases() {
+                if c.get("s") != Some("inject") {
+                    continue;
+                }
                 fails.extend(inject_case(&c, &mut out));
             }
             for f in &fails {
